@@ -127,6 +127,10 @@ func (c *ExecuteCtx) AdjustChunkCache(chooseIdxes []int) {
 	for _, idx := range chooseIdxes {
 		cidxes[idx] = struct{}{}
 	}
+	// The per-chunk results were computed for the scanned chunks, rejected rows
+	// included. A later chunk that happens to start with the same key (the
+	// returned rows, when the first scanned row is accepted) must not get them
+	clear(c.FieldChunkKeyCaches)
 	for k, v := range c.FieldChunkCaches {
 		nv := make([]any, 0, len(chooseIdxes))
 		for i, item := range v {
